@@ -123,7 +123,7 @@ class C02(Profile):
     def gen(self, rng, tier):
         from .common import backends, finish_cfg
         case = gen_concurrent_case(rng, tier, weights=self.WEIGHTS,
-                                   len_range=(8, 30),
+                                   len_range=(8, 30), fault_p=0.2,
                                    backends=backends(self.BACKENDS))
         return finish_cfg(add_quiescent_points(case, rng), rng)
 
